@@ -793,13 +793,13 @@ func (in *c22Inst) fingerprint() string {
 	set := func(s *stateSet) {
 		for i, h := range c22AcctHash {
 			if v, ok := s.accountData[h]; ok {
-				fmt.Fprintf(&sb, "a%d=%x;", i, v)
+				fmt.Fprintf(&sb, "a%d=%x/%v;", i, v, v == nil) // nil-ness is part of the state: deletions are nil
 			}
 			if m, ok := s.storageData[h]; ok {
 				sb.WriteString("{")
 				for j, sh := range c22SlotHash {
 					if v, ok := m[sh]; ok {
-						fmt.Fprintf(&sb, "s%d=%x;", j, v)
+						fmt.Fprintf(&sb, "s%d=%x/%v;", j, v, v == nil)
 					}
 				}
 				sb.WriteString("}")
